@@ -104,7 +104,7 @@ def gen_case(rnd, prop, tier):
                 fault = [k, rnd.choice([0, 1, 17, 200, 1000, 5000])] if k != 'read-error' else [k]
             ops.append(['saveload', fault])
     return dict(engine='B', attrs=attrs, sizes=sizes, cliques=cliques, kind=kind, pots=pots, total=total, elim=elim,
-                source=source, fresh_names=rnd.random() < 0.3, est_solver=rnd.choice(['MD', 'MD', 'RDA', 'IG']), est_iters=rnd.choice([1, 3, 8]), est_seed=rnd.getrandbits(32), fsmode=fsmode, ops=ops, fold=rnd.choice(['harness', 'combine']), layout=rnd.choice(['C', 'C', 'F']))
+                source=source, fresh_names=rnd.random() < 0.3, est_solver=rnd.choice(['MD', 'MD', 'RDA', 'IG']), est_iters=rnd.choice([1, 3, 8]), est_seed=rnd.getrandbits(32), fsmode=fsmode, ops=ops, fold=rnd.choice(['harness', 'combine']), layout=rnd.choice(['C', 'C', 'F']), key_order=rnd.choice([None, None, 'reversed', 'sorted']))
 
 
 def sample_view(case):
